@@ -58,7 +58,14 @@ def unit_noise(noise_seed, i):
     return np.random.default_rng([int(noise_seed) % (2**32), int(i)])
 
 
-def _baseline(rng, small=False):
+def _baseline(rng, small=False, lopsided=0.0, third_party=0.08):
+    if lopsided and rng.random() < lopsided:
+        # a unit that one party wins 99.5 : 0.5 (its baseline normalised margin is close to +-1)
+        size = float(np.exp(rng.normal(6.0, 0.9)))
+        share = 0.995 if rng.random() < 0.5 else 0.005
+        bd = max(1, int(round(size * share)))
+        bg = max(1, int(round(size * (1 - share))))
+        return bd, bg, int(rng.integers(0, 3))
     if small:
         bd = int(rng.integers(1, 15))
         bg = int(rng.integers(1, 15))
@@ -68,7 +75,7 @@ def _baseline(rng, small=False):
         share = float(np.clip(rng.normal(0.5, 0.17), 0.08, 0.92))
         bd = max(20, int(round(size * share)))
         bg = max(20, int(round(size * (1 - share))))
-        bo = int(rng.integers(0, max(2, int(size * 0.08))))
+        bo = int(rng.integers(0, max(2, int(size * third_party))))
     return bd, bg, bo
 
 
@@ -119,6 +126,8 @@ def election_case(
     unit_types=("precinct", "precinct", "precinct", "county"),
     min_states=1,
     state_blocklist_odds=8,
+    lopsided=0.0,
+    third_party=(0.08, 0.08, 0.08, 1.2),
 ):
     pi = draw(st.sampled_from(list(estimators)))
     office = draw(st.sampled_from(list(offices)))
@@ -248,6 +257,7 @@ def election_case(
     srng = unit_noise(noise_seed, 10_000_019)
     state_shift = {s: float(srng.normal(0, 0.04)) for s in states}
     hard_factor = draw(st.sampled_from([3, 8, 40]))
+    third = draw(st.sampled_from(list(third_party)))  # size of the third-party vote relative to the two-party vote
 
     per_county_counter = {}
     blocklist = []
@@ -260,7 +270,7 @@ def election_case(
         uid = f"{dist}_{county}_p{k}" if district else f"{county}_p{k}"
         x1 = round(float(rng.normal(0, 1)), 4)
         x2 = round(float(rng.normal(0, 1)), 4)
-        bd, bg, bo = _baseline(rng, small=(rng.random() < 0.04))
+        bd, bg, bo = _baseline(rng, small=(rng.random() < 0.04), lopsided=lopsided, third_party=third)
         if status in (Z, ZN, ZA, BZ, BZN):
             # zero baseline: zero turnout (vote estimands) and zero two-party vote (margin)
             bd, bg, bo = 0, 0, 0
